@@ -32,6 +32,21 @@ CHECKS = {
     note="The two lower bounds (solved count >= rows finally attributed to the method) are checked by the oracle only, not proved. Lost batches (C05's finding) are outside completed runs. Trusted: Coq kernel+vm_compute, recorders, harness.",
     technique="Coq proof by positionwise stage invariants + recorded-batch replay inside Coq",
     design="7/C18"),
+ "C01": dict(
+    text="Machine-checked proof (Coq). The full statement (every solved row's reaction is found balanced) is REFUTED on the faithful pipeline model (C01_refuted: post-processing overwrites a validated reaction; the final pass never re-examines solved rows). C01_partial is proved for every oracle, database and input: every solved row of a completed run was found balanced by the validator on exactly the reaction it returns, unless post-processing replaced a validated rule-based/mcs-based reaction; with C07 (Balance <=> equal compositions; decompose exact for all 118 elements and charge) 'found balanced' is true element-and-charge balance. Correspondence: every recorded real batch replayed in the model inside Coq; RDKit-only oracle re-parses and re-counts every solved row.",
+    note="The link 'validator verdict = true balance' goes through the decomp oracle (= decompose of RDKit's atoms, validated by C07's correspondence). Domain: closed-shell inputs (radical placeholders such as [O] are deliberately rewritten by the atom-map stripper). Trusted: Coq kernel+vm_compute, recorders, RDKit oracle.",
+    technique="Coq proof (row-local pipeline form + validator invariant) with refuted/partial split + recorded-batch replay",
+    design="7/C01"),
+ "C04": dict(
+    text="Machine-checked proof (Coq), both directions, for every oracle/database/input: in a completed run, a reaction whose stripped form the validator finds balanced (verdict Balance and carbon label balanced) gets a row solved by input-balanced whose reaction and input_reaction equal the stripped input; conversely a row labelled input-balanced implies the input was balanced and nothing was added. Uses the proved row-local form of the pipeline (id write-back = map). Correspondence: curated balanced reactions, reversals, doublings, unions, ionic/heavy/isotope cases and all corpus rows replayed in the model; RDKit-only balance oracle decides expected outcomes.",
+    note="Balance is judged on the input as the tool reads it (after atom-map removal); inputs with radical placeholders ([O], [H]) are outside the domain and counted. Trusted: Coq kernel+vm_compute, recorders, RDKit oracle.",
+    technique="Coq proof via row-locality lemma + validator fixed-point argument + differential replay",
+    design="7/C04"),
+ "C06": dict(
+    text="Machine-checked proof (Coq): with ids = positions (established by preprocess, preserved by every stage) the id-based write-back of the rule-based stage equals a map, hence the whole pipeline is a map of a per-row function that does not read the id; therefore every row of a completed run equals the row its reaction gets alone, and the same reaction gets the same row in any two batches (any other rows, order, batch size). Correspondence/oracle: the same reactions alone, in random orders, random partitions (batch_size API) and with n_jobs>1, rows and merged statistics compared, reproducibility filter for timing.",
+    note="PARTIAL on the runtime: oracles are modelled as functions of the row's strings; wall-clock MCS time-outs under load and joblib/loky scheduling cannot be exhibited by the model (rows with conflicting recorded answers are reported timing_unstable). Additivity of statistics over partitions is checked by the oracle, not proved. Trusted: Coq kernel+vm_compute, recorders, joblib ordering (A8).",
+    technique="Coq proof (write-back-by-id = map under the id invariant; row-local pipeline) + context-variation differential runs",
+    design="7/C06"),
 }
 NA = []
 def main():
